@@ -2,6 +2,7 @@ package main
 
 import (
 	"fmt"
+	"os"
 	"strings"
 	"time"
 
@@ -178,7 +179,9 @@ func randFault(r *RNG, h *hist, kind string, npk, ntx int) (fault, attemptOpts) 
 }
 
 // causeIsTransport tells whether the master-side fault is a lost connection / protocol failure.
-func causeIsTransport(k string) bool { return k == "close" || k == "rst" || k == "short" || k == "badseq" }
+func causeIsTransport(k string) bool {
+	return k == "close" || k == "rst" || k == "short" || k == "badseq"
+}
 
 func init() {
 	// ---- C04 at the Stream level: exactly-once across failed attempts -------------------------------------
@@ -217,9 +220,20 @@ func init() {
 				if a < attempts {
 					kind = faultKinds[(i+a*5)%len(faultKinds)]
 					f, opts = randFault(r, h, kind, npk, len(full))
+					if r.Chance(1, 5) {
+						// the attempt dies before a dump exists (nothing can have been delivered, nothing may move)
+						opts.refuse = r.Pickstr("close-on-accept", "handshake-err", "query-err", "rst-after-query")
+						f.kind = "refused-" + opts.refuse
+					}
 				}
 				res := runAttempt(s, m, h, mp, opts)
 				// the dump request of this attempt shows the position kept by the previous one
+				if opts.refuse != "" && len(res.calls) == 0 && res.streamRet != "hang" {
+					// the master killed the connection before it looked at a dump request (with "rst-after-query" the
+					// replica may have written one that nobody read, and then sees a lost connection: Stream returns nil)
+					trace = append(trace, fmt.Sprintf("%s->no-dump,ret=%s,pos=%s", f.String(), clip(res.streamRet, 40), res.nowPos))
+					continue
+				}
 				if len(res.dumps) == 0 && strings.HasPrefix(res.streamRet, "err:") && len(res.calls) == 0 {
 					// the attempt ended before a dump was requested (cancelled while connecting): nothing may have moved
 					trace = append(trace, fmt.Sprintf("%s->no-dump,ret=%s,pos=%s", f.String(), clip(res.streamRet, 40), res.nowPos))
@@ -259,16 +273,16 @@ func init() {
 
 	// ---- C05: termination, nothing left behind, Error() never blocks -------------------------------------------
 	register(&Property{ID: "C05",
-		Rule: "real Stream() against the simulated master: every stop cause {cancel, EOF, ERR, close, RST, short packet, out-of-sequence packet, handler error, mapper error/mismatch, unsupported / invalid event, connection refused / handshake error / checksum-query error} x stop point (every packet index sampled) x reader state at the stop (waiting for the network: master silent; holding an event: handler slow or blocked with the master ahead) x handler {fast, slow, blocked-at-stop}. Observed: Stream returns within the deadline, then within the deadline the master sees the socket closed, no library-started goroutine remains (runtime.Stack), Error() and a second Error() return, the handler is never entered twice at once nor after Stream returned. Non-trivial: every scenario",
+		Rule:  "real Stream() against the simulated master: every stop cause {cancel, EOF, ERR, close, RST, short packet, out-of-sequence packet, handler error, mapper error/mismatch, unsupported / invalid event, connection refused / handshake error / checksum-query error} x stop point (every packet index sampled) x reader state at the stop (waiting for the network: master silent; holding an event: handler slow or blocked with the master ahead) x handler {fast, slow, blocked-at-stop}. Observed: Stream returns within the deadline, then within the deadline the master sees the socket closed, no library-started goroutine remains (runtime.Stack), Error() and a second Error() return, the handler is never entered twice at once nor after Stream returned. Non-trivial: every scenario",
 		Extra: extraC05})
 	register(&Property{ID: "C06",
-		Rule: "real Stream() against the simulated master: stop causes as in C04 x stop points x pacing; ERR codes/messages arbitrary (incl. '#'-prefixed SQL state); observed (Stream result, Error() result): handler/decode/lookup failures give a non-nil Stream error; with a nil Stream result Error() may be nil only for cancel / EOF, must carry the master's message for ERR and a transport error for close / RST / short / out-of-sequence; late cancel after an ERR must not hide it. Non-trivial: every scenario",
+		Rule:  "real Stream() against the simulated master: stop causes as in C04 x stop points x pacing; ERR codes/messages arbitrary (incl. '#'-prefixed SQL state); observed (Stream result, Error() result): handler/decode/lookup failures give a non-nil Stream error; with a nil Stream result Error() may be nil only for cancel / EOF, must carry the master's message for ERR and a transport error for close / RST / short / out-of-sequence; late cancel after an ERR must not hide it. Non-trivial: every scenario",
 		Extra: extraC06})
 	register(&Property{ID: "C07",
-		Rule: "real Stream() attempts with server ids {1, 2^31-1, 2^31, 2^32-1, random}, file names of 1..255 bytes, offsets {4, 2^32-1, random}, sequences of up to 4 attempts on one streamer; the master decodes the COM_QUERY and COM_BINLOG_DUMP it received. Non-trivial: every scenario",
+		Rule:  "real Stream() attempts with server ids {1, 2^31-1, 2^31, 2^32-1, random}, file names of 1..255 bytes, offsets {4, 2^32-1, random}, sequences of up to 4 attempts on one streamer; the master decodes the COM_QUERY and COM_BINLOG_DUMP it received. Non-trivial: every scenario",
 		Extra: extraC07})
 	register(&Property{ID: "C08",
-		Rule: "real Stream() with handlers that (a) keep deep references and re-read every delivered transaction after the stream ended, (b) overwrite every delivered byte slice; histories with string/blob/bit/set values (sub-slices of the event buffer) and zero timestamps; packet sizes around the driver's buffer thresholds (4091..4097, 8187..8193, 262139..262145 byte payloads); master far ahead vs lock-step; plus readBinlogEvent over a scripted connection that reuses one buffer. Non-trivial: every scenario",
+		Rule:  "real Stream() with handlers that (a) keep deep references and re-read every delivered transaction after the stream ended, (b) overwrite every delivered byte slice; histories with string/blob/bit/set values (sub-slices of the event buffer) and zero timestamps; packet sizes around the driver's buffer thresholds (4091..4097, 8187..8193, 262139..262145 byte payloads); master far ahead vs lock-step; plus readBinlogEvent over a scripted connection that reuses one buffer. Non-trivial: every scenario",
 		Extra: extraC08})
 }
 
@@ -334,10 +348,20 @@ func extraC05(col *Collector, r *RNG, tier string) {
 		var opts attemptOpts
 		var pf *fault
 		switch i % 10 {
-		case 0: // the attempt fails before a connection exists
+		case 0: // the attempt fails before a dump exists
 			opts = defaultOpts()
-			opts.refuse = r.Pickstr("close-on-accept", "handshake-err", "query-err")
-			desc = "no-connection:" + opts.refuse
+			opts.refuse = r.Pickstr("close-on-accept", "handshake-err", "query-err", "rst-after-query", "dump-too-large", "dump-too-large")
+			if opts.refuse == "dump-too-large" {
+				// connection and checksum query succeed, then the COM_BINLOG_DUMP packet cannot be written: the file
+				// name makes it larger than the connection's max_allowed_packet (no reader goroutine was started)
+				s2, _ := gobinlog.NewStreamer(strings.Replace(m.dsn(), "maxAllowedPacket=67108864", "maxAllowedPacket=200", 1), 5, mp)
+				s2.SetBinlogPosition(gobinlog.Position{Filename: randName(r, r.Range(230, 600)), Offset: 4})
+				s = s2
+				opts.refuse = ""
+				desc = "no-dump:dump-packet-too-large"
+			} else {
+				desc = "no-connection:" + opts.refuse
+			}
 		case 1: // unreachable master
 			s2, _ := gobinlog.NewStreamer("u:p@tcp(127.0.0.1:1)/db", 5, mp)
 			s2.SetBinlogPosition(gobinlog.Position{Filename: firstFile, Offset: 4})
@@ -389,6 +413,9 @@ func extraC05(col *Collector, r *RNG, tier string) {
 			}
 		}
 		impl := fmt.Sprintf("ret=%s error=%s stream=%s errdur=%s closed=%v leaked=%d", clip(res.streamRet, 60), clip(res.errorRet, 60), res.streamDur.Round(time.Millisecond), res.errorDur.Round(time.Millisecond), res.peerClosed, len(res.leaked))
+		if os.Getenv("VERIF_DEBUG") != "" {
+			fmt.Fprintf(os.Stderr, "C05 %s -> %s queries=%d dumps=%d\n", desc, impl, len(res.queries), len(res.dumps))
+		}
 		col.AddScenario(strings.SplitN(desc, ":", 2)[0], desc+" # "+h.line(posStr(firstFile, 4)), true, ok, corr, note, key+" scenario="+desc, impl, model)
 	}
 }
